@@ -122,7 +122,167 @@ type rewriter struct {
 	argType   map[*ast.CallExpr]types.Type  // type of first argument of close/len/cap (original)
 	rangeType map[*ast.RangeStmt]types.Type
 	regLits   map[*ast.UnaryExpr]bool
+
+	// race mode
+	ptrRecv bool
+	accW    map[ast.Expr]bool // expression is written (assignment target, inc/dec)
+	skipAcc map[ast.Expr]bool // address taken / struct-valued inner selector: not an access
 }
+
+var tracked = map[string]bool{modPath: true, modPath + "/pkg/frame": true, modPath + "/pkg/streamwriter": true}
+
+// pointerReceivers (race mode): value-receiver methods of struct types that also have
+// pointer-receiver methods (V1Frame, V2Frame getters) get pointer receivers, so that the field
+// reads they perform happen on the shared object and are seen by the tracker (with a value
+// receiver the whole struct is copied implicitly at the call, which no source construct shows).
+// The methods do not modify their receiver, so the meaning is unchanged; the types are used
+// through pointers everywhere (only the pointer types implement frame.Frame).
+func (r *rewriter) pointerReceivers() {
+	hasPtr := map[string]bool{}
+	for _, f := range r.pkg.Syntax {
+		for _, d := range f.Decls {
+			fd, ok := d.(*ast.FuncDecl)
+			if !ok || fd.Recv == nil || len(fd.Recv.List) != 1 {
+				continue
+			}
+			if st, ok := fd.Recv.List[0].Type.(*ast.StarExpr); ok {
+				if id, ok := st.X.(*ast.Ident); ok {
+					hasPtr[id.Name] = true
+				}
+			}
+		}
+	}
+	for _, d := range r.file.Decls {
+		fd, ok := d.(*ast.FuncDecl)
+		if !ok || fd.Recv == nil || len(fd.Recv.List) != 1 {
+			continue
+		}
+		id, ok := fd.Recv.List[0].Type.(*ast.Ident)
+		if !ok || !hasPtr[id.Name] {
+			continue
+		}
+		obj := r.pkg.Types.Scope().Lookup(id.Name)
+		if obj == nil {
+			continue
+		}
+		if _, isStruct := obj.Type().Underlying().(*types.Struct); !isStruct {
+			continue
+		}
+		fd.Recv.List[0].Type = &ast.StarExpr{X: id}
+		r.changed = true
+		r.ptrRecv = true
+	}
+}
+
+func unparen(e ast.Expr) ast.Expr {
+	for {
+		p, ok := e.(*ast.ParenExpr)
+		if !ok {
+			return e
+		}
+		e = p.X
+	}
+}
+
+func (r *rewriter) site(n ast.Node) ast.Expr {
+	p := n.Pos()
+	switch x := n.(type) {
+	case *ast.SelectorExpr:
+		p = x.Sel.Pos()
+	case *ast.IndexExpr:
+		p = x.Lbrack
+	case *ast.CallExpr:
+		p = x.Lparen
+	case *ast.RangeStmt:
+		p = x.For
+	}
+	pos := r.pkg.Fset.Position(p)
+	return &ast.BasicLit{Kind: token.STRING, Value: strconv.Quote(fmt.Sprintf("%s:%d", filepath.Base(pos.Filename), pos.Line))}
+}
+
+// isTrackedField: selector is a field of a struct declared in a tracked package, addressable.
+func (r *rewriter) isTrackedField(sel *ast.SelectorExpr) bool {
+	info := r.pkg.TypesInfo
+	s, ok := info.Selections[sel]
+	if !ok || s.Kind() != types.FieldVal {
+		return false
+	}
+	if s.Obj().Pkg() == nil || !tracked[s.Obj().Pkg().Path()] {
+		return false
+	}
+	tv, ok := info.Types[sel]
+	return ok && tv.Addressable()
+}
+
+func (r *rewriter) isPkgVar(id *ast.Ident) bool {
+	v, ok := r.pkg.TypesInfo.Uses[id].(*types.Var)
+	if !ok || v.IsField() || v.Pkg() == nil || !tracked[v.Pkg().Path()] {
+		return false
+	}
+	return v.Parent() == v.Pkg().Scope()
+}
+
+func isAggregate(t types.Type) bool {
+	if t == nil {
+		return false
+	}
+	switch t.Underlying().(type) {
+	case *types.Struct, *types.Array:
+		return true
+	}
+	return false
+}
+
+// racePre classifies accesses before children are rewritten.
+func (r *rewriter) racePre(c *astutil.Cursor) {
+	info := r.pkg.TypesInfo
+	switch n := c.Node().(type) {
+	case *ast.AssignStmt:
+		if n.Tok != token.DEFINE {
+			for _, l := range n.Lhs {
+				r.accW[unparen(l)] = true
+			}
+		}
+	case *ast.IncDecStmt:
+		r.accW[unparen(n.X)] = true
+	case *ast.UnaryExpr:
+		if n.Op == token.AND {
+			r.skipAcc[unparen(n.X)] = true
+		}
+	case *ast.SelectorExpr:
+		// inner selector of struct / array type: the outer selector names the accessed memory
+		if inner, ok := unparen(n.X).(*ast.SelectorExpr); ok && isAggregate(info.TypeOf(inner)) {
+			r.skipAcc[inner] = true
+		}
+		if inner, ok := unparen(n.X).(*ast.Ident); ok && isAggregate(info.TypeOf(inner)) {
+			r.skipAcc[inner] = true
+		}
+	case *ast.IndexExpr:
+		if inner, ok := unparen(n.X).(*ast.SelectorExpr); ok && isAggregate(info.TypeOf(inner)) {
+			r.skipAcc[inner] = true
+		}
+	case *ast.RangeStmt:
+		if n.Tok == token.ASSIGN {
+			if n.Key != nil {
+				r.accW[unparen(n.Key)] = true
+			}
+			if n.Value != nil {
+				r.accW[unparen(n.Value)] = true
+			}
+		}
+	}
+}
+
+// raceWrap wraps an addressable expression: (*vmc.R(&e, site)) / (*vmc.W(&e, site))
+func (r *rewriter) raceWrap(e ast.Expr, write bool, at ast.Node) ast.Expr {
+	fn := "R"
+	if write {
+		fn = "W"
+	}
+	r.changed = true
+	return &ast.ParenExpr{X: &ast.StarExpr{X: call(r.vmc(fn), &ast.UnaryExpr{Op: token.AND, X: e}, r.site(at))}}
+}
+
 
 func (r *rewriter) vmc(name string) ast.Expr {
 	r.usesVmc = true
@@ -147,20 +307,47 @@ func (r *rewriter) run() bool {
 			r.changed = true
 		}
 	}
-	if !r.full {
+	if !r.full && !r.race {
 		return r.changed
 	}
 	info := r.pkg.TypesInfo
+	r.accW = map[ast.Expr]bool{}
+	r.skipAcc = map[ast.Expr]bool{}
 	r.recvCalls = map[*ast.CallExpr]ast.Expr{}
 	r.sendCalls = map[*ast.CallExpr][2]ast.Expr{}
 	r.argType = map[*ast.CallExpr]types.Type{}
 	r.rangeType = map[*ast.RangeStmt]types.Type{}
 	r.regLits = map[*ast.UnaryExpr]bool{}
 
+	if r.race {
+		r.pointerReceivers()
+	}
+	raceField := map[*ast.SelectorExpr]bool{}
+	raceVar := map[*ast.Ident]bool{}
+	raceMap := map[*ast.IndexExpr]types.Type{}
 	pre := func(c *astutil.Cursor) bool {
+		if r.race {
+			r.racePre(c)
+			switch n := c.Node().(type) {
+			case *ast.SelectorExpr:
+				if r.isTrackedField(n) {
+					raceField[n] = true
+				}
+			case *ast.Ident:
+				if r.isPkgVar(n) {
+					raceVar[n] = true
+				}
+			case *ast.IndexExpr:
+				if t := info.TypeOf(n.X); t != nil {
+					if _, ok := t.Underlying().(*types.Map); ok {
+						raceMap[n] = t
+					}
+				}
+			}
+		}
 		switch n := c.Node().(type) {
 		case *ast.CallExpr:
-			if id, ok := n.Fun.(*ast.Ident); ok && (id.Name == "close" || id.Name == "len" || id.Name == "cap") && len(n.Args) == 1 {
+			if id, ok := n.Fun.(*ast.Ident); ok && (id.Name == "close" || id.Name == "len" || id.Name == "cap" || id.Name == "delete") && len(n.Args) >= 1 {
 				if _, isBuiltin := info.Uses[id].(*types.Builtin); isBuiltin {
 					r.argType[n] = info.TypeOf(n.Args[0])
 				}
@@ -187,8 +374,58 @@ func (r *rewriter) run() bool {
 		return true
 	}
 	post := func(c *astutil.Cursor) bool {
+		if r.race {
+			switch n := c.Node().(type) {
+			case *ast.SelectorExpr:
+				if raceField[n] && !r.skipAcc[n] {
+					// the selector that names a method / qualified identifier is never wrapped (not a field)
+					c.Replace(r.raceWrap(n, r.accW[n], n))
+					return true
+				}
+			case *ast.Ident:
+				if raceVar[n] && !r.skipAcc[n] {
+					if _, isSelName := c.Parent().(*ast.SelectorExpr); isSelName && c.Name() == "Sel" {
+						break
+					}
+					if kv, ok := c.Parent().(*ast.KeyValueExpr); ok && kv.Key == n {
+						break
+					}
+					c.Replace(r.raceWrap(n, r.accW[n], n))
+					return true
+				}
+			case *ast.IndexExpr:
+				if _, ok := raceMap[n]; ok {
+					fn := "MR"
+					if r.accW[n] {
+						fn = "MW"
+					}
+					n.X = call(r.vmc(fn), n.X, r.site(n))
+					r.changed = true
+				}
+			case *ast.CallExpr:
+				if id, ok := n.Fun.(*ast.Ident); ok && len(n.Args) >= 1 {
+					if _, isBuiltin := info.Uses[id].(*types.Builtin); isBuiltin {
+						if t := r.argType[n]; t != nil {
+							if _, isMap := t.Underlying().(*types.Map); isMap {
+								switch id.Name {
+								case "delete":
+									n.Args[0] = call(r.vmc("MW"), n.Args[0], r.site(n))
+									r.changed = true
+								case "len":
+									n.Args[0] = call(r.vmc("MR"), n.Args[0], r.site(n))
+									r.changed = true
+								}
+							}
+						}
+					}
+				}
+			}
+		}
 		switch n := c.Node().(type) {
 		case *ast.ChanType:
+			if !r.full {
+				break
+			}
 			r.changed = true
 			c.Replace(&ast.StarExpr{X: &ast.IndexExpr{X: r.vmc("Chan"), Index: n.Value}})
 		case *ast.CallExpr:
@@ -384,6 +621,13 @@ func (r *rewriter) rewriteGo(g *ast.GoStmt) ast.Stmt {
 	return blk
 }
 
+func (r *rewriter) maybeMR(m ast.Expr, at ast.Node) ast.Expr {
+	if r.race {
+		return call(r.vmc("MR"), m, r.site(at))
+	}
+	return m
+}
+
 func (r *rewriter) rewriteRangeChan(n *ast.RangeStmt) ast.Stmt {
 	// for v := range c  =>  for { v, ok := c.Recv2(); if !ok { break }; body }
 	r.nsel++
@@ -442,5 +686,5 @@ func (r *rewriter) rewriteRangeMap(n *ast.RangeStmt) ast.Stmt {
 			body = append([]ast.Stmt{get, skip}, body...)
 		}
 	}
-	return &ast.RangeStmt{Key: ast.NewIdent("_"), Value: key, Tok: token.DEFINE, X: call(r.vmc("SortedKeys"), n.X), Body: &ast.BlockStmt{List: body}}
+	return &ast.RangeStmt{Key: ast.NewIdent("_"), Value: key, Tok: token.DEFINE, X: call(r.vmc("SortedKeys"), r.maybeMR(n.X, n)), Body: &ast.BlockStmt{List: body}}
 }
